@@ -760,4 +760,72 @@ theorem WF.two_mul_abs_le {x : F64} (hw : x.WF) (h : x.toInt.natAbs < 2 ^ 2097) 
   rw [← Int.natCast_natAbs]
   exact_mod_cast this
 
+/-! ## `renorm3` -/
+
+/-- `renorm3 a b c` is a final Fast2Sum of `vh = c ⊕ (a ⊕ b)` and `w = u.lo ⊕ v.lo` where
+`u = fast_two_sum a b`, `v = fast_two_sum c u.hi` (NB the crate passes the *small* word `c` first) -/
+theorem renorm3_eq (a b c : F64) :
+    arithmetic.renorm3 a b c =
+      arithmetic.fast_two_sum (F64.add c (F64.add a b))
+        (F64.add (arithmetic.fast_two_sum a b).lo (arithmetic.fast_two_sum c (F64.add a b)).lo) := rfl
+
+theorem renorm3_WF (a b c : F64) : (arithmetic.renorm3 a b c).WF := fast_two_sum_WF _ _
+
+/-- `renorm3` returns a valid pair as soon as the precondition of its last Fast2Sum holds -/
+theorem renorm3_valid_of {a b c : F64}
+    (hvh : (F64.add c (F64.add a b)).is_finite = true)
+    (hw : (F64.add (arithmetic.fast_two_sum a b).lo
+      (arithmetic.fast_two_sum c (F64.add a b)).lo).is_finite = true)
+    (hle : (F64.add (arithmetic.fast_two_sum a b).lo
+        (arithmetic.fast_two_sum c (F64.add a b)).lo).toInt.natAbs
+      ≤ (F64.add c (F64.add a b)).toInt.natAbs)
+    (hov : (F64.add (F64.add c (F64.add a b))
+      (F64.add (arithmetic.fast_two_sum a b).lo
+        (arithmetic.fast_two_sum c (F64.add a b)).lo)).is_finite = true) :
+    (arithmetic.renorm3 a b c).V =
+        (F64.add c (F64.add a b)).toInt +
+          (F64.add (arithmetic.fast_two_sum a b).lo
+            (arithmetic.fast_two_sum c (F64.add a b)).lo).toInt ∧
+      (arithmetic.renorm3 a b c).Valid ∧ (arithmetic.renorm3 a b c).WF := by
+  rw [renorm3_eq]
+  exact fast_two_sum_of_finite _ _ (add_WF _ _) (add_WF _ _) hvh hw hle hov
+
+/-! ## `new_div` (Joldes et al. Alg. 15 with a one-word numerator) -/
+
+/-- exponent bookkeeping for the quotient of two normal magnitudes: with `eA, eB, e` the ulp exponents of
+`a`, `b` and of the quotient `a·2^u / b`, one has `eA + u ≤ e + eB + 53` and `e + eB + 52 ≤ eA + u` -/
+theorem div_exponents {a b u : Nat} (ha52 : 2 ^ 52 ≤ a) (hb52 : 2 ^ 52 ≤ b) (hq : 2 ^ 52 * b ≤ a * 2 ^ u) :
+    Nat.log2 a - 52 + u ≤ Nat.log2 (a * 2 ^ u / b) - 52 + (Nat.log2 b - 52) + 53 ∧
+    Nat.log2 (a * 2 ^ u / b) - 52 + (Nat.log2 b - 52) + 52 ≤ Nat.log2 a - 52 + u := by
+  have hbpos : 0 < b := by have := Nat.two_pow_pos 52; omega
+  have a1 := (log2_sub_spec ha52).1
+  have a2 := lt_ulp_mul a
+  have b1 := (log2_sub_spec hb52).1
+  have b2 := lt_ulp_mul b
+  have q1 := roundQ_exp_le hbpos hq
+  have q2 := roundQ_exp_lt (a * 2 ^ u) b hbpos
+  generalize Nat.log2 a - 52 = eA at *
+  generalize Nat.log2 b - 52 = eB at *
+  generalize Nat.log2 (a * 2 ^ u / b) - 52 = e at *
+  constructor
+  · -- 2^52·2^eA·2^u ≤ a·2^u < 2^53·b·2^e < 2^53·2^53·2^eB·2^e
+    have h1 : 2 ^ (52 + eA + u) < 2 ^ (106 + eB + e) := by
+      calc 2 ^ (52 + eA + u) = 2 ^ 52 * 2 ^ eA * 2 ^ u := by rw [Nat.pow_add, Nat.pow_add]
+        _ ≤ a * 2 ^ u := Nat.mul_le_mul_right _ a1
+        _ < 2 ^ 53 * (b * 2 ^ e) := q2
+        _ ≤ 2 ^ 53 * (2 ^ 53 * 2 ^ eB * 2 ^ e) :=
+            Nat.mul_le_mul_left _ (Nat.mul_le_mul_right _ (Nat.le_of_lt b2))
+        _ = 2 ^ (106 + eB + e) := by rw [Nat.pow_add, Nat.pow_add]; ring
+    have := (Nat.pow_lt_pow_iff_right (by decide : 1 < 2)).1 h1
+    omega
+  · have h1 : 2 ^ (104 + eB + e) < 2 ^ (53 + eA + u) := by
+      calc 2 ^ (104 + eB + e) = 2 ^ 52 * (2 ^ 52 * 2 ^ eB * 2 ^ e) := by
+            rw [Nat.pow_add, Nat.pow_add]; ring
+        _ ≤ 2 ^ 52 * (b * 2 ^ e) := Nat.mul_le_mul_left _ (Nat.mul_le_mul_right _ b1)
+        _ ≤ a * 2 ^ u := q1
+        _ < 2 ^ 53 * 2 ^ eA * 2 ^ u := Nat.mul_lt_mul_of_pos_right a2 (Nat.two_pow_pos u)
+        _ = 2 ^ (53 + eA + u) := by rw [Nat.pow_add, Nat.pow_add]
+    have := (Nat.pow_lt_pow_iff_right (by decide : 1 < 2)).1 h1
+    omega
+
 end F64
